@@ -36,7 +36,7 @@ RunVerdict(e, run) ==
          (IF PostOne(c) /\ Len(run.unknown) = 0 THEN {} ELSE {"Inv_C14_One"})
          \cup (IF PostEq(c, J) THEN {} ELSE {"Inv_C14_Eq"})
          \cup (IF PackedFree(e) /\ ~PostComponents(c, V, J) THEN {"Inv_C14_Components"} ELSE {})
-         \cup (IF PackedFree(e) /\ PostOne(c) /\ ~PostJoin(c, V, J) THEN {"Inv_C15_Join"} ELSE {})
+         \cup (IF PackedFree(e) /\ PostOne(c) /\ ~(PostJoin(c, V, J) /\ PostJoinClosure(c, V, J)) THEN {"Inv_C15_Join"} ELSE {})
          \cup (IF PackedFree(e) /\ PostOne(c) /\ ~PostConflict(c, V, J)
                THEN (IF \E k \in MustConflict(V, J) : Absorbed(J, k)
                      THEN {"Inv_C15_Conflict/absorbed"} ELSE {"Inv_C15_Conflict"})
